@@ -722,6 +722,18 @@ func (p *ProjectRunner) ShutDownProject() error {
 			log.Error().Msgf("Failed to build project run order: %s", err.Error())
 		}
 		slices.Reverse(shutdownOrder)
+		// a running process that the configuration does not list under its current name (a
+		// scale request is renaming the replicas right now) is stopped as well - first:
+		// nothing can depend on a replica
+		listed := make(map[*Process]bool, len(shutdownOrder))
+		for _, proc := range shutdownOrder {
+			listed[proc] = true
+		}
+		for _, proc := range p.runningProcesses {
+			if !listed[proc] {
+				shutdownOrder = append([]*Process{proc}, shutdownOrder...)
+			}
+		}
 	} else {
 		for _, proc := range p.runningProcesses {
 			shutdownOrder = append(shutdownOrder, proc)
@@ -908,14 +920,15 @@ func (p *ProjectRunner) updateReplicaCount(name string, scale int) {
 }
 
 func (p *ProjectRunner) renameProcess(name string, newName string) {
-	process := p.getRunningProcess(name)
-	if process != nil {
-		p.removeRunningProcess(process)
+	// the registry entry moves in one step: a project shutdown that took its snapshot of the
+	// running processes between the removal and the re-registration missed the process
+	p.runProcMutex.Lock()
+	if process, ok := p.runningProcesses[name]; ok {
+		delete(p.runningProcesses, name)
 		process.setName(newName)
-		p.runProcMutex.Lock()
 		p.runningProcesses[newName] = process
-		p.runProcMutex.Unlock()
 	}
+	p.runProcMutex.Unlock()
 	logs := p.removeProcessLogs(name)
 	if logs != nil {
 		p.logsMutex.Lock()
